@@ -10,7 +10,7 @@ ASSUMPTIONS = [
 ]
 TRUSTED_EXTRA = []
 
-CHANGE = ("add", "addmany", "remove", "removemany", "removefiltered", "update", "updatemany")
+CHANGE = ("add", "addmany", "remove", "removemany", "removefiltered", "update", "updatemany", "removeread", "updateread")
 
 
 def judge_factory():
